@@ -142,7 +142,7 @@ struct Vi {
 }
 
 /// more items than any iteration of a generated case can legitimately yield (walks are bounded by
-/// `Limits::none_cap` ≤ 4000 items, the verbose iterator yields at most three times as many)
+/// `Limits::none_cap` ≤ 5000 items, the verbose iterator yields at most three times as many)
 const RUNAWAY: usize = 40_000;
 
 struct Obs {
@@ -1208,7 +1208,7 @@ fn random_keys(r: &mut ctx::Rng, c: &[Ch], mode: u64) -> Vec<Option<u32>> {
 
 pub fn run(ctx: &mut Ctx) {
     let quick = ctx.quick();
-    let lim = Limits { none_cap: if quick { 2_000 } else { 4_000 } };
+    let lim = Limits { none_cap: if quick { 2_000 } else { 1_500 } };
 
     // 1. every DAG shape up to the bound, every policy
     let max = if quick { 6 } else { 8 };
@@ -1217,13 +1217,13 @@ pub fn run(ctx: &mut Ctx) {
     for_all_shapes(max, |s| {
         if s.len() == 8 {
             count8 += 1;
-            if count8 % 24 != 0 {
+            if count8 % 32 != 0 {
                 return;
             }
         }
         shapes.push(s.to_vec());
     });
-    ctx.note(&format!("exhaustive part: {} shapes with at most {} nodes{}", shapes.len(), max, if max == 8 { " (8-node shapes: every 24th)" } else { "" }));
+    ctx.note(&format!("exhaustive part: {} shapes with at most {} nodes{}", shapes.len(), max, if max == 8 { " (8-node shapes: every 32nd)" } else { "" }));
     for s in &shapes {
         let n = s.len();
         let mut r = ctx.rng.fork();
@@ -1241,8 +1241,8 @@ pub fn run(ctx: &mut Ctx) {
     }
 
     // the single-node DAG under every policy, a few taggings
-    for v in 0..6u32 {
-        let c = Case { ch: vec![Ch::Nul], tags: vec![if v == 5 { None } else { Some(v) }], keys: vec![if v % 2 == 0 { None } else { Some(v) }] };
+    for v in 0..ctx.scale(6, 130) as u32 {
+        let c = Case { ch: vec![Ch::Nul], tags: vec![if v % 6 == 5 { None } else { Some(v) }], keys: vec![if v % 2 == 0 { None } else { Some(v) }] };
         for pol in [Pol::None, Pol::Ptr, Pol::Hash, Pol::Key] {
             one(ctx, &c, pol, (v % 2) as usize, "single-node", &lim);
         }
@@ -1252,7 +1252,7 @@ pub fn run(ctx: &mut Ctx) {
     let sizes: Vec<(u64, usize, usize)> = if quick {
         vec![(1500, 9, 40), (150, 41, 200), (24, 201, 700), (8, 1200, 2000)]
     } else {
-        vec![(40_000, 9, 40), (3000, 41, 200), (300, 201, 700), (60, 1200, 2000)]
+        vec![(30_000, 9, 40), (3000, 41, 200), (300, 201, 700), (90, 1200, 2000)]
     };
     for (cnt, lo, hi) in sizes {
         for it in 0..cnt {
